@@ -94,7 +94,9 @@ def cli_part(chk, tuc):
 
     for name, args in modes.items():
         # inputs without a final EOL: the tail after the last newline sits in stdout's LineWriter until the last flush
-        for data in (small, big, small[:-1], big + b"LAST-LINE-WITHOUT-NEWLINE"):
+        # `huge`: single fields of 100 KB — written past main's BufWriter in one piece, so a fault there is seen by the engine, not by the final flush
+        huge = (b"v" * 100000 + b"-k-" + b"w" * 100000 + b"\n") * 3
+        for data in (small, big, small[:-1], big + b"LAST-LINE-WITHOUT-NEWLINE", huge):
             rc, full = run(args, data)
             chk.evaluations += 1
             if rc != 0:
@@ -132,10 +134,16 @@ def cli_part(chk, tuc):
     shutil.rmtree(tmp, ignore_errors=True)
 
 
+# errno values the doubles report their faults with (never EINTR: write_all / read_to_end retry it by contract)
+ERRNOS_W = [32, 28, 5, 27, 9, 11]
+ERRNOS_R = [5, 21, 9, 11, 104]
+
+
 def run(chk):
     chk.rule = ("in-process: main's dispatch for every mode (fast, general, -M with random segmentation, -b, -l both algorithms, -c, --json) "
                 "on random small inputs; for each case the writer fails at every byte position k ≤ |fault-free output| and the reader fails "
-                "after every k ≤ |input| bytes; CLI: RLIMIT_FSIZE=k at 0,1,mid,end-1,64Ki±1,128Ki for 8 modes × small/147 KB inputs, "
+                "after every k ≤ |input| bytes, the fault reported as a custom error or as one of the OS errors EPIPE ENOSPC EIO EFBIG EBADF "
+                "EAGAIN / EIO EISDIR EBADF EAGAIN ECONNRESET; CLI: RLIMIT_FSIZE=k at 0,1,mid,end-1,64Ki±1,128Ki for 8 modes × small/147 KB inputs, "
                 "/dev/full, closed pipe, stdin from a directory; non-trivial = a fault position strictly inside the output/input")
     run_corpus(chk)
     rng = chk.rng
@@ -150,11 +158,15 @@ def run(chk):
         for k in range(0, len(full) + 1):
             d = dict(c)
             d["wf"] = k
+            if rng.random() < 0.6:
+                d["wfe"] = rng.choice(ERRNOS_W)          # the fault as a real OS error: EPIPE, ENOSPC, EIO, EFBIG, EBADF, EAGAIN
             W.append(d)
             wmeta.append((st, full, k))
         for k in range(0, len(c["in"]) + 1):
             d = dict(c)
             d["rf"] = k
+            if rng.random() < 0.6:
+                d["rfe"] = rng.choice(ERRNOS_R)          # EIO, EISDIR, EBADF, EAGAIN, ECONNRESET
             R.append(d)
             rmeta.append((st, full, k))
     for c in W[:2] + R[:2]:
